@@ -92,4 +92,27 @@ def calls : List (String × List String) :=
    ("Builder.get_build_subgraph_callback", ["?._inject_build_result", "?.with_opset", "self.compile_graph", "subgraph._get_build_result", "subgraph.to_onnx", "subgraph.with_name", "subgraph_functions.extend"]),
    ("Builder.compile_graph", ["BuildResult", "functions.extend", "node.to_onnx", "node.update_metadata", "scope.update", "self.get_build_subgraph_callback"])]
 
+/-- names bound at module level in the other modules the build path passes through -/
+def otherModuleNames : List (String × String) :=
+  [("_graph.py", "arguments_dict"),
+   ("_graph.py", "arguments"),
+   ("_graph.py", "enum_arguments"),
+   ("_graph.py", "initializer"),
+   ("_graph.py", "Graph"),
+   ("_graph.py", "results"),
+   ("_graph.py", "enum_results"),
+   ("_graph.py", "subgraph"),
+   ("_internal_op.py", "INTERNAL_MIN_OPSET"),
+   ("_internal_op.py", "IDENTITY_OPTIONAL_MIN_OPSET"),
+   ("_internal_op.py", "_InternalNode"),
+   ("_internal_op.py", "Argument"),
+   ("_internal_op.py", "_Initializer"),
+   ("_internal_op.py", "_Introduce"),
+   ("_internal_op.py", "intros"),
+   ("_internal_op.py", "intro"),
+   ("_internal_op.py", "unsafe_cast"),
+   ("_internal_op.py", "unsafe_reshape"),
+   ("_traverse.py", "V"),
+   ("_traverse.py", "iterative_dfs")]
+
 end Generated.BuildAlgFacts
